@@ -1,6 +1,9 @@
 //! Solver-backed drivers: C02, C03, C04, C10, C15. `drv-mc worker` is the worker subprocess.
 mod c02;
 mod c03;
+mod c04;
+mod c10;
+mod c15;
 mod common;
 mod pool;
 mod wit;
@@ -14,6 +17,9 @@ fn main() {
         return;
     }
     main_with(&[
+        Entry { id: "C15", level: "fault_enumeration", meta: c15::meta, run: c15::run, replay: c15::replay },
+        Entry { id: "C10", level: "model_checking", meta: c10::meta, run: c10::run, replay: c10::replay },
+        Entry { id: "C04", level: "model_checking", meta: c04::meta, run: c04::run, replay: c04::replay },
         Entry { id: "C03", level: "model_checking", meta: c03::meta, run: c03::run, replay: c03::replay },
         Entry { id: "C02", level: "model_checking", meta: c02::meta, run: c02::run, replay: c02::replay }])
 }
